@@ -137,8 +137,8 @@ class DBConnection:
         uri = '%s://%s' % (self.dbName, auth)
         if self.host:
             uri += self.host
-            if self.port:
-                uri += ':%d' % self.port
+        if self.port is not None:
+            uri += ':%d' % self.port
         uri += '/'
         db = self.db
         if db.startswith('/'):
@@ -216,8 +216,11 @@ class DBConnection:
             user = unquote(parsed.username)
         if parsed.password:
             password = unquote(parsed.password)
-        if parsed.port:
+        if parsed.port is not None:
             port = int(parsed.port)
+            if not (1 <= port <= 65535):
+                raise ValueError("port must be integer in the range 1-65535, "
+                                 "got '%d' instead" % port)
 
         path = unquote(path)
         if (os.name == 'nt') and (len(path) > 2):
